@@ -80,7 +80,7 @@ class Source:
     @brightness.setter
     def brightness(self, value: float) -> None:
         quantity_check(value, "brightness")
-        self.__brightness = value
+        self.__brightness = float(value)
 
     @property
     def purity(self) -> float:
@@ -93,7 +93,7 @@ class Source:
         if not 0.5 < value <= 1:
             raise ValueError("Value of purity should be in range (0.5,1].")
         quantity_check(value, "purity")
-        self.__purity = value
+        self.__purity = float(value)
 
     @property
     def indistinguishability(self) -> float:
@@ -103,7 +103,7 @@ class Source:
     @indistinguishability.setter
     def indistinguishability(self, value: float) -> None:
         quantity_check(value, "indistinguishability")
-        self.__indistinguishability = value
+        self.__indistinguishability = float(value)
 
     @property
     def probability_threshold(self) -> float:
@@ -116,7 +116,7 @@ class Source:
     @probability_threshold.setter
     def probability_threshold(self, value: float) -> None:
         quantity_check(value, "probability_threshold")
-        self.__probability_threshold = value
+        self.__probability_threshold = float(value)
 
     def check_number(self, state: State) -> int:
         """
